@@ -69,6 +69,61 @@ def numeric_leg(ctx):
                     ctx.violation(MODULE, "numeric:get_pfb_voltages", args, {"shape": list(gv.shape)})
 
 
+def scale_leg(ctx):
+    """Instantiations far beyond the model's bounds of statements the model proves for small sizes: OneShotIsPure (a long
+    stateless call between two cached chunks), ChunkingInvariant with a silent (all-zero) chunk, and the definition for
+    thousands of spectra in one call."""
+    from .. import refpipe
+    rng = np.random.default_rng(ctx.seed + 9)
+    # (a) a silent chunk inside a cached stream (zero padding / gated source), real and complex
+    for taps, B in ((4, 16), (2, 8)):
+        for cplx in (False, True):
+            n = taps * B
+            x = rng.standard_normal(6 * n) + (1j * rng.standard_normal(6 * n) if cplx else 0)
+            for silent in ((2,), (5,), (3, 4)):
+                y = x.copy()
+                for k in silent:
+                    y[k * n:(k + 1) * n] = 0
+                pf = pfbm.PolyphaseFilterbank(num_taps=taps, num_branches=B)
+                outs = [pf.channelize(y[k * n:(k + 1) * n], cache=True) for k in range(6)]
+                got = np.concatenate(outs, axis=0)
+                one = pfbm.PolyphaseFilterbank(num_taps=taps, num_branches=B).channelize(y, cache=False)
+                ctx.evaluations += 1
+                ctx.mark(("silent", taps, B, cplx, silent))
+                if got.shape != one.shape or not np.array_equal(got, one):
+                    ctx.violation(MODULE, "numeric:silent_chunk", {"taps": taps, "B": B, "complex": cplx, "silent_chunks": list(silent), "action": "numeric"},
+                                  {"max_abs": float(np.max(np.abs(got - one))) if got.shape == one.shape else "shape"})
+    # (b) thousands of spectra in one call (not a power of two) against the definition
+    taps, B, windows = 4, 1024, 1501
+    x = rng.standard_normal(windows * taps * B)
+    pf = pfbm.PolyphaseFilterbank(num_taps=taps, num_branches=B)
+    got = pf.channelize(x, cache=False)
+    want = refpipe.pfb_ref(x, taps, B)
+    ctx.evaluations += 1
+    ctx.mark(("many-spectra", taps, B, windows))
+    if got.shape != want.shape or np.max(np.abs(got - want)) > 1e-8 * np.max(np.abs(want)):
+        bad = np.argwhere(np.max(np.abs(got - want), axis=1) > 1e-8 * np.max(np.abs(want))) if got.shape == want.shape else []
+        ctx.violation(MODULE, "numeric:many_spectra", {"taps": taps, "B": B, "windows": windows, "action": "numeric"},
+                      {"shape": [list(got.shape), list(want.shape)], "first_wrong_spectrum": int(bad[0][0]) if len(bad) else None, "n_wrong": int(len(bad))})
+    # (c) a very long stateless call (> 2^24 samples) between two cached chunks leaves the stream's cache alone
+    taps, B = 8, 1024
+    n = taps * B
+    pf = pfbm.PolyphaseFilterbank(num_taps=taps, num_branches=B)
+    a, b = rng.standard_normal(2 * n), rng.standard_normal(3 * n)
+    o1 = pf.channelize(a, cache=True)
+    big = rng.standard_normal(2 ** 24 + n)
+    pf.channelize(big, cache=False)
+    del big
+    o2 = pf.channelize(b, cache=True)
+    one = pfbm.PolyphaseFilterbank(num_taps=taps, num_branches=B).channelize(np.concatenate([a, b]), cache=False)
+    got = np.concatenate([o1, o2], axis=0)
+    ctx.evaluations += 1
+    ctx.mark(("long-uncached", taps, B))
+    if got.shape != one.shape or not np.array_equal(got, one):
+        ctx.violation(MODULE, "numeric:long_uncached_call_between_chunks", {"taps": taps, "B": B, "action": "numeric"},
+                      {"shape": [list(got.shape), list(one.shape)]})
+
+
 def run(ctx):
     ctx.notes["rule"] = ("behaviours = (taps, B, real/complex) x sequences of cached / stateless channelize calls and "
                          "cache resets on two interleaved filterbank objects generated by TLC with exact integer "
@@ -118,3 +173,4 @@ def run(ctx):
                           {"cfg": c, "calls": [s["act"] for s in steps[:d.step + 1]], "expected": d.expected,
                            "observed": d.observed, "step": d.step})
     numeric_leg(ctx)
+    scale_leg(ctx)
